@@ -27,6 +27,15 @@
 (*                      (flushCondition.Wait WITH the mutex held),          *)
 (*                      CloseCommit / CloseAck / CloseNext for the          *)
 (*                      immutable then the mutable database, CloseEnd       *)
+(* Memory databases are entities of their own (`Db`): a handle taken by a   *)
+(* writer stays the same database after the freeze, and the shard's memory  *)
+(* index keeps the slot range of a database under a key (`dbStamp`, its     *)
+(* creation time) that two databases may share.                             *)
+(* Where: data_family.go Flush 259-317, Evict 346-378, WriteRows 537-575    *)
+(* (window 539-548), Close 635-667 (Wait under the mutex: 640-642),         *)
+(* flushMemoryDatabase 669-712; memdb/database.go 140 (createdTime),        *)
+(* 208 / 372 / 443 (range by createdTime); memdb/index_database.go 133-150  *)
+(* (Cleanup clears the range by createdTime).                               *)
 (* The switches name where the code deviates from what the subsystem        *)
 (* evidently promises (first group, value of the code in brackets) and the  *)
 (* protective steps the code has (second group; switched off only by the    *)
